@@ -74,6 +74,10 @@ def table_to_desc(t):
 def build_spec(desc):
     import dnachisel as dc
     name, kw = desc[0], dict(desc[1])
+    if kw.pop("passive", False):
+        # objective scored in every local problem but never optimised for itself
+        rest = (name, tuple(sorted((k, v) for k, v in kw.items())))
+        return build_spec(rest).as_passive_objective()
     if "location" in kw and kw["location"] is not None:
         kw["location"] = tuple(kw["location"])
     if isinstance(kw.get("reference"), list):
@@ -91,11 +95,41 @@ def build_spec(desc):
     if name in customspecs.CUSTOM:
         return customspecs.CUSTOM[name](**kw)
     cls = getattr(dc, name, None) or getattr(dc.builtin_specifications, name)
+    if reused(desc, 3) and kw.get("codon_usage_table") is not None:
+        # the user's table object has already served other codon specifications (which may cache data
+        # in it): the specification built now must not depend on that
+        tbl = kw["codon_usage_table"]
+        try:
+            dc.MaximizeCAI(codon_usage_table=tbl)
+            dc.HarmonizeRCA(codon_usage_table=tbl, original_codon_usage_table=tbl)
+        except Exception:  # noqa
+            pass
     return cls(**kw)
+
+
+def reused(desc, modulus):
+    """deterministic coin (by content) deciding that a case exercises objects reused across problems"""
+    import zlib
+    return zlib.crc32(repr(desc).encode()) % modulus == 0
+
+
+def other_sequence(seq):
+    """another sequence of the same length (reverse of the complement-free shuffle): used to 'pre-use'
+    specification objects on a different problem"""
+    r = seq[::-1]
+    return r if r != seq else seq[1:] + seq[:1]
 
 
 def init_spec(desc, seq, role="constraint"):
     sp = build_spec(desc)
+    if reused(desc, 4):
+        # the same user object is first initialised (and evaluated) on another sequence: nothing of
+        # that first use may leak into the problem of interest
+        try:
+            other = FakeProblem(other_sequence(seq))
+            sp.initialized_on_problem(other, role=role).evaluate(other)
+        except Exception:  # noqa
+            pass
     return sp.initialized_on_problem(FakeProblem(seq), role=role)
 
 
@@ -241,6 +275,8 @@ def gen_spec(rng, cls, n):
         p = rng.choice(["AA", "ACG", "GAATTC", "CGTCTC", "AN", "WS", "3xA", "4xC", "2x2mer", "3x1mer", "BsaI_site", "ANT", "GC"])
         loc = rng.choice([None, rloc(rng, n)])
         kw = {"pattern": p, "location": loc}
+        if rng.random() < 0.25:
+            kw["strand"] = rng.choice(["both", 1, -1, 0])      # overrides the strand of the location
         # seed occurrences
         par = parse_shorthand(p)
         from .c11 import instance
@@ -257,6 +293,8 @@ def gen_spec(rng, cls, n):
     if cls == "EnforcePatternOccurence":
         p = rng.choice(["AA", "ACG", "GAATTC", "CGTCTC", "ANT"])
         kw = {"pattern": p, "occurences": rng.choice([0, 1, 1, 2, 3]), "location": rng.choice([None, rloc(rng, n)])}
+        if rng.random() < 0.25:
+            kw["strand"] = rng.choice(["both", 1, -1, 0])
         return (cls, tuple(sorted(kw.items()))), role, seq
     if cls == "EnforceGCContent" and rng.random() < 0.25:
         # goal met exactly on a bound: a w-periodic sequence has the same G/C count k in every window;
@@ -369,14 +407,14 @@ def gen_spec(rng, cls, n):
         r = rng.random()
         if role == "constraint":
             if r < 0.3:
-                kw["minimum"] = rng.choice([1, 2, 3])
+                kw["minimum"] = rng.choice([0, 1, 2, 3])
             elif r < 0.5:
-                kw["minimum_percent"] = rng.choice([50, 30])
+                kw["minimum_percent"] = rng.choice([50, 30, 0])
         else:
             if r < 0.3:
-                kw["amount"] = rng.choice([1, 2, 3])
+                kw["amount"] = rng.choice([0, 0, 1, 2, 3])
             elif r < 0.5:
-                kw["amount_percent"] = rng.choice([50, 30])
+                kw["amount_percent"] = rng.choice([50, 30, 0])
         return (cls, tuple(sorted(kw.items()))), role, seq
     if cls == "EnforceSequence":
         loc = rloc(rng, n, minlen=1)
